@@ -158,7 +158,192 @@ pub fn run_call(re: &Regex, call: &Value) -> Value {
     v
 }
 
+// the iterator types are not exported by name: keep them behind boxed iterators (they never leave the
+// thread that opened them)
+enum It {
+    Tok(Box<dyn Iterator<Item = String>>),
+    Ana(Box<dyn Iterator<Item = AnalyzeEntry>>),
+}
+
+fn hist_op(op: &Value, regs: &std::sync::RwLock<std::collections::HashMap<u64, &'static Regex>>,
+           its: &mut std::collections::HashMap<u64, It>) -> Value {
+    let name = op["op"].as_str().unwrap_or("");
+    let r = op["r"].as_u64().unwrap_or(0);
+    let it = op["it"].as_u64().unwrap_or(0);
+    let s = cps_to_string(&op["s"]).unwrap_or_default();
+    let get = |r: u64| -> Option<&'static Regex> { regs.read().unwrap().get(&r).copied() };
+    regexml::verif_take_cutoffs();
+    let res = guarded(|| match name {
+        "compile" => {
+            let pat = cps_to_string(&op["pat"]).unwrap_or_default();
+            let flags = cps_to_string(&op["flags"]).unwrap_or_default();
+            let c = if op["x"].as_bool().unwrap_or(true) { Regex::xpath(&pat, &flags) } else { Regex::xsd(&pat, &flags) };
+            match c {
+                Ok(re) => {
+                    regs.write().unwrap().insert(r, Box::leak(Box::new(re)));
+                    json!({"k":"ok"})
+                }
+                Err(e) => err_value(&e),
+            }
+        }
+        "is_match" => match get(r) {
+            Some(re) => json!({"k":"ok","v":re.is_match(&s)}),
+            None => json!({"k":"noreg"}),
+        },
+        "replace" => match get(r) {
+            Some(re) => match re.replace_all(&s, &cps_to_string(&op["repl"]).unwrap_or_default()) {
+                Ok(v) => json!({"k":"ok","v":string_to_cps(&v)}),
+                Err(e) => err_value(&e),
+            },
+            None => json!({"k":"noreg"}),
+        },
+        "tokenize" => match get(r) {
+            Some(re) => match re.tokenize(&s) {
+                Ok(t) => {
+                    its.insert(it, It::Tok(Box::new(t)));
+                    json!({"k":"ok"})
+                }
+                Err(e) => err_value(&e),
+            },
+            None => json!({"k":"noreg"}),
+        },
+        "analyze" => match get(r) {
+            Some(re) => match re.analyze(&s) {
+                Ok(a) => {
+                    its.insert(it, It::Ana(Box::new(a)));
+                    json!({"k":"ok"})
+                }
+                Err(e) => err_value(&e),
+            },
+            None => json!({"k":"noreg"}),
+        },
+        "next" => match its.get_mut(&it) {
+            Some(It::Tok(t)) => match t.next() {
+                Some(x) => json!({"k":"some","v":string_to_cps(&x)}),
+                None => json!({"k":"none"}),
+            },
+            Some(It::Ana(a)) => match a.next() {
+                Some(x) => json!({"k":"some","v":entry_value(&x)}),
+                None => json!({"k":"none"}),
+            },
+            None => json!({"k":"noit"}),
+        },
+        "drop_it" => {
+            its.remove(&it);
+            json!({"k":"dropped"})
+        }
+        "drop_reg" => {
+            // the Regex itself was leaked on purpose (iterators borrow it for 'static); forget the id
+            regs.write().unwrap().remove(&r);
+            json!({"k":"dropped"})
+        }
+        _ => json!({"k":"badjob"}),
+    });
+    let mut v = match res {
+        Ok(v) => v,
+        Err(p) => p,
+    };
+    let cut = regexml::verif_take_cutoffs();
+    if cut != 0 {
+        v["cut"] = json!(cut);
+    }
+    v
+}
+
+/// A history of API calls on a pool of shared objects (C18): executed in order ("seq"), or from four
+/// threads that share the Regex objects while each thread owns the iterators it opened ("mt").
+fn run_history(job: &Value) -> Value {
+    let id = job["id"].clone();
+    let mut hist = job["hist"].as_array().cloned().unwrap_or_default();
+    // register and iterator ids are reused by the histories after a drop: give every object its own key
+    {
+        let (mut cur_r, mut cur_it) = (std::collections::HashMap::new(), std::collections::HashMap::new());
+        let mut fresh = 1000u64;
+        for op in hist.iter_mut() {
+            let name = op["op"].as_str().unwrap_or("").to_string();
+            if name == "compile" {
+                fresh += 1;
+                cur_r.insert(op["r"].as_u64().unwrap_or(0), fresh);
+            }
+            if name == "tokenize" || name == "analyze" {
+                fresh += 1;
+                cur_it.insert(op["it"].as_u64().unwrap_or(0), fresh);
+            }
+            if let Some(r) = op.get("r").and_then(|r| r.as_u64()) {
+                op["r"] = json!(cur_r.get(&r).copied().unwrap_or(0));
+            }
+            if let Some(i) = op.get("it").and_then(|i| i.as_u64()) {
+                op["it"] = json!(cur_it.get(&i).copied().unwrap_or(0));
+            }
+        }
+    }
+    let regs = std::sync::RwLock::new(std::collections::HashMap::new());
+    let mut res: Vec<Value> = vec![Value::Null; hist.len()];
+    if job["mode"] == "mt" {
+        // compile calls first (in order), then everything else from 4 threads behind a barrier;
+        // ops on one iterator stay on one thread, in order
+        let nthreads = 4usize;
+        for (i, op) in hist.iter().enumerate() {
+            if op["op"] == "compile" {
+                res[i] = hist_op(op, &regs, &mut std::collections::HashMap::new());
+            }
+        }
+        let mut owner: std::collections::HashMap<u64, usize> = std::collections::HashMap::new();
+        let mut buckets: Vec<Vec<usize>> = vec![Vec::new(); nthreads];
+        let mut rr = 0;
+        for (i, op) in hist.iter().enumerate() {
+            let name = op["op"].as_str().unwrap_or("");
+            if name == "compile" || name == "drop_reg" {
+                continue;
+            }
+            let t = if let Some(it) = op["it"].as_u64() {
+                if name == "tokenize" || name == "analyze" {
+                    rr += 1;
+                    owner.insert(it, rr % nthreads);
+                }
+                *owner.get(&it).unwrap_or(&0)
+            } else {
+                rr += 1;
+                rr % nthreads
+            };
+            buckets[t].push(i);
+        }
+        let barrier = std::sync::Barrier::new(nthreads);
+        let outs: Vec<Vec<(usize, Value)>> = std::thread::scope(|s| {
+            let hs: Vec<_> = buckets
+                .iter()
+                .map(|b| {
+                    let (hist, regs, barrier) = (&hist, &regs, &barrier);
+                    s.spawn(move || {
+                        install_thread_hook();
+                        let mut its = std::collections::HashMap::new();
+                        barrier.wait();
+                        b.iter().map(|&i| (i, hist_op(&hist[i], regs, &mut its))).collect::<Vec<_>>()
+                    })
+                })
+                .collect();
+            hs.into_iter().map(|h| h.join().unwrap_or_default()).collect()
+        });
+        for o in outs {
+            for (i, v) in o {
+                res[i] = v;
+            }
+        }
+    } else {
+        let mut its = std::collections::HashMap::new();
+        for (i, op) in hist.iter().enumerate() {
+            res[i] = hist_op(op, &regs, &mut its);
+        }
+    }
+    json!({"id": id, "compile": {"k":"ok"}, "res": res})
+}
+
+fn install_thread_hook() {}
+
 pub fn run_job(job: &Value) -> Value {
+    if job.get("hist").is_some() {
+        return run_history(job);
+    }
     let id = job["id"].clone();
     let pat = cps_to_string(&job["pat"]);
     let flags = cps_to_string(&job["flags"]);
